@@ -345,7 +345,18 @@ pub fn run_scenarios(path: &str, out_prefix: &str, server_bin: &str, workdir: &s
                     st.round(&ex, ltk_pub, &srv, &secrets, fault);
                 }
             }
-            writeln!(proc_out, "{}", json!({"ev": "served", "distinct_online_keys": st.keys_seen, "replies": st.replies})).unwrap();
+            // spread probe: one burst from 24 sockets per configured worker. The kernel spreads the source ports over the workers'
+            // sockets, so every worker receives some of it (probability of missing a given worker: (1 - 1/n)^(24 n) < 4e-11);
+            // the hook logs say which worker threads sent replies
+            let mut answering = -1i64;
+            if sc["spread_probe"].as_bool().unwrap_or(false) {
+                let ex = probe(sp.port, 24 * sp.n_workers, 1, &mut rng, &srv, 2500);
+                st.round(&ex, ltk_pub, &srv, &secrets, fault);
+                let mut who: Vec<String> = sp.hook_lines().iter().filter(|l| l["ev"] == "sent" && l["ok"] == true).filter_map(|l| l["t"].as_str().map(|x| x.to_string())).collect();
+                who.sort(); who.dedup();
+                answering = who.iter().filter(|t| t.starts_with("worker-")).count() as i64;
+            }
+            writeln!(proc_out, "{}", json!({"ev": "served", "distinct_online_keys": st.keys_seen, "replies": st.replies, "answering_workers": answering})).unwrap();
         }
         // ---- health check: k simultaneous connections, while time service continues
         if let (Some(hp), Some(k)) = (sp.hc_port, sc["hc_conns"].as_u64()) {
